@@ -1,6 +1,7 @@
 package main
 
 import (
+	"encoding/json"
 	"fmt"
 	"os"
 	"sort"
@@ -269,6 +270,254 @@ func linkCorpus(b int) []tcase {
 	return cs
 }
 
+// ---- hard links: a later package re-ships the link TARGET ---------------------
+// a ships usr/bin/x and the hard link usr/bin/lx -> usr/bin/x (one inode, two
+// names). A later package ships usr/bin/x again: whatever the rule table says
+// about usr/bin/x, the OTHER name of the inode keeps a's bytes and mode (seeded
+// C07-4 re-pointed the node in place and changed every name of the inode).
+func hardCorpus(b int) []tcase {
+	usr := []hdr{d("usr", 0o755), d("usr/bin", 0o755)}
+	with := func(base []hdr, more ...hdr) []hdr { return append(append([]hdr{}, base...), more...) }
+	a := func(origin string, repl ...string) pkg {
+		return pkg{Name: "a", Origin: origin, Replaces: repl, Files: with(usr, f("usr/bin/x", "X", 0o755), l("usr/bin/lx", "usr/bin/x", 0o755), l("usr/bin/lx2", "usr/bin/lx", 0o700))}
+	}
+	cs := []tcase{
+		{Note: "hard link: target re-shipped by the same origin, other content", Pkgs: []pkg{a("o"),
+			{Name: "b", Origin: "o", Files: with(usr, f("usr/bin/x", "Y", 0o700))}}},
+		{Note: "hard link: target re-shipped by a package that replaces the owner", Pkgs: []pkg{a("a"),
+			{Name: "b", Origin: "b", Replaces: []string{"a"}, Files: with(usr, f("usr/bin/x", "Y", 0o644))}}},
+		{Note: "hard link: target re-shipped, the owner replaces the newcomer", Pkgs: []pkg{a("a", "b"),
+			{Name: "b", Origin: "b", Files: with(usr, f("usr/bin/x", "Y", 0o644))}}},
+		{Note: "hard link: target re-shipped by an unrelated package, other content", Pkgs: []pkg{a("a"),
+			{Name: "b", Origin: "b", Files: with(usr, f("usr/bin/x", "Y", 0o644))}}},
+		{Note: "hard link: target re-shipped with identical content, other mode", Pkgs: []pkg{a("a"),
+			{Name: "b", Origin: "b", Files: with(usr, f("usr/bin/x", "X", 0o600))}}},
+		{Note: "hard link: target re-shipped as a symbolic link by the same origin", Pkgs: []pkg{a("o"),
+			{Name: "b", Origin: "o", Files: with(usr, s("usr/bin/x", "lx"))}}},
+		{Note: "hard link: target replaced twice, then the link's own name replaced", Pkgs: []pkg{a("o"),
+			{Name: "b", Origin: "o", Files: with(usr, f("usr/bin/x", "Y", 0o700))},
+			{Name: "c", Origin: "o", Files: with(usr, f("usr/bin/x", "Z", 0o711), l("usr/bin/lz", "usr/bin/x", 0o711))},
+			{Name: "d", Origin: "o", Files: with(usr, f("usr/bin/lx", "W", 0o600))}}},
+		{Note: "hard link: a later package links to a file another package owns, then the file is replaced", Pkgs: []pkg{
+			{Name: "a", Origin: "o", Files: with(usr, f("usr/bin/x", "X", 0o755))},
+			{Name: "b", Origin: "p", Files: with(usr, f("usr/bin/y", "Y", 0o755), l("usr/bin/ly", "usr/bin/x", 0o755))},
+			{Name: "c", Origin: "o", Files: with(usr, f("usr/bin/x", "Z", 0o644))}}},
+		{Note: "hard link: identical regular file at the link's name, then other content (name owned by nobody)", Pkgs: []pkg{a("o"),
+			{Name: "b", Origin: "o", Files: with(usr, f("usr/bin/lx", "X", 0o644))},
+			{Name: "c", Origin: "o", Files: with(usr, f("usr/bin/lx", "Y", 0o644))}}},
+	}
+	for i := range cs {
+		cs[i].Backend = b
+	}
+	return cs
+}
+
+// ---- one package ships a path twice -------------------------------------------
+// Both install paths apply the rule table to the package against itself (same
+// origin: the later copy wins; identical content: the first stays); both
+// headers are handed to the database writer, whose sort keeps ONE header per
+// cleaned name (the last) and writes it once per occurrence.
+func dupCorpus(b int) []tcase {
+	usr := []hdr{d("usr", 0o755), d("usr/bin", 0o755)}
+	with := func(base []hdr, more ...hdr) []hdr { return append(append([]hdr{}, base...), more...) }
+	cs := []tcase{
+		{Note: "dup: one package ships a file twice, other content", Pkgs: []pkg{
+			{Name: "a", Origin: "a", Files: with(usr, f("usr/bin/x", "X", 0o755), f("usr/bin/x", "Y", 0o700))}}},
+		{Note: "dup: one package ships a file twice, identical content, other mode", Pkgs: []pkg{
+			{Name: "a", Origin: "a", Files: with(usr, f("usr/bin/x", "X", 0o755), f("usr/bin/x", "X", 0o700))}}},
+		{Note: "dup: one package ships a file twice, identical headers", Pkgs: []pkg{
+			{Name: "a", Origin: "a", Files: with(usr, f("usr/bin/x", "X", 0o755), f("usr/bin/x", "X", 0o755))}}},
+		{Note: "dup: X, Y, X again", Pkgs: []pkg{
+			{Name: "a", Origin: "a", Files: with(usr, f("usr/bin/x", "X", 0o755), f("usr/bin/x", "Y", 0o700), f("usr/bin/x", "X", 0o711))}}},
+		{Note: "dup: a package without origin ships a file twice, other content", Pkgs: []pkg{
+			{Name: "a", Files: with(usr, f("usr/bin/x", "X", 0o755), f("usr/bin/x", "Y", 0o700))}}},
+		{Note: "dup: a package without origin ships a file twice, identical", Pkgs: []pkg{
+			{Name: "a", Files: with(usr, f("usr/bin/x", "X", 0o755), f("usr/bin/x", "X", 0o755))}}},
+		{Note: "dup: file twice, then an unrelated package ships the first copy's bytes", Pkgs: []pkg{
+			{Name: "a", Origin: "a", Files: with(usr, f("usr/bin/x", "X", 0o755), f("usr/bin/x", "Y", 0o700))},
+			{Name: "b", Origin: "b", Files: with(usr, f("usr/bin/x", "X", 0o755))}}},
+		{Note: "dup: file twice, then an unrelated package ships the second copy's bytes", Pkgs: []pkg{
+			{Name: "a", Origin: "a", Files: with(usr, f("usr/bin/x", "X", 0o755), f("usr/bin/x", "Y", 0o700))},
+			{Name: "b", Origin: "b", Files: with(usr, f("usr/bin/x", "Y", 0o755))}}},
+		{Note: "dup: a later package of the same origin ships the path twice", Pkgs: []pkg{
+			{Name: "a", Origin: "o", Files: with(usr, f("usr/bin/x", "X", 0o755))},
+			{Name: "b", Origin: "o", Files: with(usr, f("usr/bin/x", "Y", 0o700), f("usr/bin/x", "Z", 0o711))}}},
+		{Note: "dup: a later unrelated package ships the path twice, first copy identical", Pkgs: []pkg{
+			{Name: "a", Origin: "a", Files: with(usr, f("usr/bin/x", "X", 0o755))},
+			{Name: "b", Origin: "b", Files: with(usr, f("usr/bin/x", "X", 0o700), f("usr/bin/x", "Z", 0o711))}}},
+		{Note: "dup: link twice, other target", Pkgs: []pkg{
+			{Name: "a", Origin: "a", Files: with(usr, s("usr/bin/sx", "x"), s("usr/bin/sx", "y"))}}},
+		{Note: "dup: link twice, same target", Pkgs: []pkg{
+			{Name: "a", Origin: "a", Files: with(usr, s("usr/bin/sx", "x"), s("usr/bin/sx", "x"))}}},
+		{Note: "dup: file then link at one path", Pkgs: []pkg{
+			{Name: "a", Origin: "a", Files: with(usr, f("usr/bin/x", "X", 0o755), s("usr/bin/x", "y"))}}},
+		{Note: "dup: link then file at one path", Pkgs: []pkg{
+			{Name: "a", Origin: "a", Files: with(usr, s("usr/bin/x", "nowhere"), f("usr/bin/x", "X", 0o755))}}},
+		{Note: "dup: hard link twice", Pkgs: []pkg{
+			{Name: "a", Origin: "a", Files: with(usr, f("usr/bin/x", "X", 0o755), l("usr/bin/lx", "usr/bin/x", 0o755), l("usr/bin/lx", "usr/bin/x", 0o755))}}},
+		{Note: "dup: directory twice below the top level, other mode, one file in it", Pkgs: []pkg{
+			{Name: "a", Origin: "a", Files: []hdr{d("usr", 0o755), d("usr/bin", 0o755), d("usr/bin", 0o700), f("usr/bin/x", "X", 0o755)}}}},
+		{Note: "dup: top-level directory twice, other mode", Pkgs: []pkg{
+			{Name: "a", Origin: "a", Files: []hdr{d("usr", 0o755), d("usr", 0o700), d("usr/bin", 0o755), f("usr/bin/x", "X", 0o755)}}}},
+		{Note: "dup: directory twice and a file twice inside it", Pkgs: []pkg{
+			{Name: "a", Origin: "a", Files: []hdr{d("usr", 0o755), d("usr/bin", 0o755), f("usr/bin/x", "X", 0o755), d("usr/bin", 0o755), f("usr/bin/x", "Y", 0o700)}}}},
+		{Note: "dup: file then directory at one path (fails)", Pkgs: []pkg{
+			{Name: "a", Origin: "a", Files: with(usr, f("usr/bin/x", "X", 0o755), d("usr/bin/x", 0o755))}}},
+		{Note: "dup: directory then file at one path, the file first in another order", Pkgs: []pkg{
+			{Name: "a", Origin: "a", Files: with(usr, d("usr/bin/x", 0o755), f("usr/bin/x/y", "Y", 0o644), d("usr/bin/x", 0o700))}}},
+	}
+	if b != bTarfs {
+		// tarfs reads a package-backed file's bytes by NAME from the package's own index
+		// (the last entry of that name): see probeReadByName (finding C07-F17)
+		cs = append(cs, tcase{Note: "dup: file, hard link to it, the file again with other bytes", Pkgs: []pkg{
+			{Name: "a", Origin: "a", Files: with(usr, f("usr/bin/x", "X", 0o755), l("usr/bin/lx", "usr/bin/x", 0o755), f("usr/bin/x", "YY", 0o700))}}})
+	}
+	for i := range cs {
+		cs[i].Backend = b
+	}
+	return cs
+}
+
+// ---- the table of clash kinds ---------------------------------------------------
+// kind of the two entries (file/file, file/link, link/link, dir/other) x relation of
+// the two packages (empty origin on either side / one declares it replaces the other /
+// same non-empty origin / unrelated) x content (identical checksum / different; a
+// link's checksum is that of its target string). Every cell occurs at least once in
+// the hand-picked cases below, on every backend; the stage prints the table it ran.
+var cellKinds = []string{"file/file", "file/link", "link/link", "dir/other"}
+var cellRels = []string{"empty-origin", "replaces", "same-origin", "unrelated"}
+var cellContents = []string{"identical", "different"}
+
+func allCells() []string {
+	var out []string
+	for _, k := range cellKinds {
+		for _, r := range cellRels {
+			for _, c := range cellContents {
+				if k == "dir/other" && c == "identical" {
+					continue
+				}
+				out = append(out, k+"|"+r+"|"+c)
+			}
+		}
+	}
+	return out
+}
+
+func cellCorpus(b int) []tcase {
+	usr := []hdr{d("usr", 0o755), d("usr/bin", 0o755)}
+	with := func(base []hdr, more ...hdr) []hdr { return append(append([]hdr{}, base...), more...) }
+	type rel struct {
+		name   string
+		oa, ob string
+		rb     []string
+	}
+	rels := []rel{{"empty-origin", "a", "", nil}, {"replaces", "a", "b", []string{"a"}}, {"same-origin", "o", "o", nil}, {"unrelated", "a", "b", nil}}
+	type ent struct {
+		kind, content string
+		first, second hdr
+	}
+	ents := []ent{
+		{"file/file", "identical", f("usr/bin/x", "X", 0o755), f("usr/bin/x", "X", 0o755)},
+		{"file/file", "different", f("usr/bin/x", "X", 0o755), f("usr/bin/x", "Y", 0o755)},
+		{"file/link", "identical", f("usr/bin/x", "y", 0o644), s("usr/bin/x", "y")},
+		{"file/link", "different", f("usr/bin/x", "X", 0o644), s("usr/bin/x", "y")},
+		{"link/link", "identical", s("usr/bin/x", "y"), s("usr/bin/x", "y")},
+		{"link/link", "different", s("usr/bin/x", "y"), s("usr/bin/x", "z")},
+		{"dir/other", "different", d("usr/bin/x", 0o755), f("usr/bin/x", "X", 0o644)},
+	}
+	var cs []tcase
+	for _, e := range ents {
+		for _, r := range rels {
+			cs = append(cs, tcase{Backend: b, Note: "cell: " + e.kind + ", " + r.name + ", " + e.content, Pkgs: []pkg{
+				{Name: "a", Origin: r.oa, Files: with(usr, e.first)},
+				{Name: "b", Origin: r.ob, Replaces: r.rb, Files: with(usr, e.second)}}})
+		}
+	}
+	return cs
+}
+
+func declaresPkg(p pkg, other string) bool {
+	for _, r := range p.Replaces {
+		if r == other {
+			return true
+		}
+	}
+	return false
+}
+
+func hdrSum(h hdr) string {
+	if h.Kind == kSym {
+		return h.Link
+	}
+	return h.Content
+}
+
+// clashCells lists the cells a case exercises: every pair of packages (in install
+// order) that ship one path, judged on the first header of that path in each
+func clashCells(c tcase) []string {
+	var out []string
+	first := func(p pkg) map[string]hdr {
+		m := map[string]hdr{}
+		for _, h := range p.Files {
+			if h.Kind == kLink {
+				continue
+			}
+			if _, ok := m[h.Path]; !ok {
+				m[h.Path] = h
+			}
+		}
+		return m
+	}
+	for i := range c.Pkgs {
+		mi := first(c.Pkgs[i])
+		for j := 0; j < i; j++ {
+			mj := first(c.Pkgs[j])
+			var paths []string
+			for p := range mi {
+				if _, ok := mj[p]; ok {
+					paths = append(paths, p)
+				}
+			}
+			sort.Strings(paths)
+			for _, p := range paths {
+				old, nw := mj[p], mi[p]
+				if old.Kind == kDir && nw.Kind == kDir {
+					continue
+				}
+				kind := ""
+				switch {
+				case old.Kind == kDir || nw.Kind == kDir:
+					kind = "dir/other"
+				case old.Kind == kReg && nw.Kind == kReg:
+					kind = "file/file"
+				case old.Kind == kSym && nw.Kind == kSym:
+					kind = "link/link"
+				default:
+					kind = "file/link"
+				}
+				rel := "unrelated"
+				switch {
+				case c.Pkgs[i].Origin == "" || c.Pkgs[j].Origin == "":
+					rel = "empty-origin"
+				case declaresPkg(c.Pkgs[i], c.Pkgs[j].Name) || declaresPkg(c.Pkgs[j], c.Pkgs[i].Name):
+					rel = "replaces"
+				case c.Pkgs[i].Origin == c.Pkgs[j].Origin:
+					rel = "same-origin"
+				}
+				content := "different"
+				if kind != "dir/other" && hdrSum(old) == hdrSum(nw) {
+					content = "identical"
+				}
+				out = append(out, kind+"|"+rel+"|"+content)
+			}
+		}
+	}
+	return out
+}
+
+var cellCount = map[string]int{}
+var dupCases int
+
 // ---- random ordered package lists ------------------------------------------
 
 var filePool = []string{"usr/bin/x", "usr/bin/y", "usr/lib/l", "etc/c", "opt/d/f", "opt/d/g"}
@@ -297,6 +546,9 @@ func genCase(r *gal.Rand, b int) tcase {
 	// a directory reachable under two names: the first package ships usr/lib64 -> lib
 	// and opt/e -> d, later ones ship some of their files under the link's name
 	linky := !kindy && r.Chance(1, 6)
+	// one package ships a path twice (another copy of a file or link, with the same or
+	// other bytes / mode / kind, or a directory header twice)
+	dupy := r.Chance(1, 8)
 	for i := 0; i < n; i++ {
 		p := pkg{Name: names[i]}
 		switch r.Intn(6) {
@@ -424,6 +676,58 @@ func genCase(r *gal.Rand, b int) tcase {
 			p.Files = append(p.Files, h)
 		}
 		p.Files = append(p.Files, items...)
+		if dupy && len(items) > 0 && r.Chance(2, 3) {
+			it := items[r.Intn(len(items))]
+			for _, x := range items {
+				if x.Kind == kLink && x.Link == it.Path {
+					// the name of a hard-linked file is not shipped again by the same package:
+					// tarfs reads bytes by NAME from the package's index (finding C07-F17,
+					// replayed by probeReadByName; not in the model)
+					it.Kind = kLink
+				}
+			}
+			switch {
+			case it.Kind == kReg:
+				switch r.Intn(5) {
+				case 0: // identical header
+				case 1: // same bytes, other mode
+					it.Mode = gal.Pick(r, []int64{0o600, 0o755, 0o711})
+				case 2, 3: // other bytes
+					it.Content = gal.Pick(r, []string{"A", "B", "D"})
+					it.Mode = gal.Pick(r, []int64{0o644, 0o700})
+				default: // the path again as a link
+					it = s(it.Path, gal.Pick(r, []string{"x", "nowhere"}))
+				}
+			case it.Kind == kSym:
+				if r.Chance(1, 2) {
+					it.Link = gal.Pick(r, []string{"x", "y", "../lib/l"})
+				} else if r.Chance(1, 3) {
+					it = f(it.Path, "A", 0o644)
+				}
+			}
+			if it.Kind != kLink {
+				p.Files = append(p.Files, it)
+			}
+		}
+		if dupy && r.Chance(1, 3) {
+			// a directory header of the package once more, with another mode, at the end or right after the first
+			var ds []int
+			for k, x := range p.Files {
+				if x.Kind == kDir {
+					ds = append(ds, k)
+				}
+			}
+			if len(ds) > 0 {
+				k := ds[r.Intn(len(ds))]
+				again := p.Files[k]
+				again.Mode = gal.Pick(r, []int64{0o755, 0o700, 0o750})
+				if r.Chance(1, 2) {
+					p.Files = append(p.Files, again)
+				} else {
+					p.Files = append(p.Files[:k+1], append([]hdr{again}, p.Files[k+1:]...)...)
+				}
+			}
+		}
 		if malformed && r.Chance(1, 3) {
 			p.Files = append(p.Files, f("top"+names[i], "T", 0o644))
 		}
@@ -512,11 +816,98 @@ func addCase(w *gal.Writer, c tcase) {
 			c.Pkgs[i] = by[n]
 		}
 	}
+	for _, cell := range clashCells(c) {
+		cellCount[cell]++
+	}
+	if hasDupPath(c) {
+		dupCases++
+	}
 	clash := strings.Contains(features(c, o), "clashing-paths=0")
 	w.Add(gal.Case{Term: galCase(c, o, t), Desc: c, Class: features(c, o), Trivial: clash})
 }
 
 var harnessFailures int
+
+// probeReadByName: one package ships usr/bin/x ("X"), the hard link usr/bin/lx to it and
+// usr/bin/x again ("YY"): the link's name must still show "X" (it is another name of the
+// FIRST node), usr/bin/x must show "YY". tarfs reads a package-backed node's bytes by the
+// entry's NAME from the package's own index, which keeps the LAST entry of a name: the
+// link shows "YY" (finding C07-F17). Also: a package that lists itself in replaces keeps
+// its first copy (mode 0755) whose bytes then read as the second copy's.
+func probeReadByName(b int) {
+	usr := []hdr{d("usr", 0o755), d("usr/bin", 0o755)}
+	report := func(tag, note, what string) {
+		fmt.Printf("IMPL-VIOLATION tag=%s {\"backend\":%q,\"case\":%q,\"observed\":%q}\n", tag, backendNames[b], note, what)
+	}
+	get := func(o obs, t *ids, p string) (int, bool) {
+		for _, n := range o.Tree {
+			if n.Path == p {
+				return n.Sum, n.Kind == kReg
+			}
+		}
+		return 0, false
+	}
+	{
+		c := tcase{Backend: b, Note: "file, hard link to it, the file again with other bytes", Pkgs: []pkg{
+			{Name: "a", Origin: "a", Files: append(append([]hdr{}, usr...), f("usr/bin/x", "X", 0o755), l("usr/bin/lx", "usr/bin/x", 0o755), f("usr/bin/x", "YY", 0o700))}}}
+		t := newIDs()
+		o, err := run(c, t)
+		if err != nil || o.Err != 0 {
+			fmt.Fprintf(os.Stderr, "harness: probeReadByName could not be run: %v %s\n", err, o.ErrText)
+			harnessFailures++
+			return
+		}
+		lx, okl := get(o, t, "usr/bin/lx")
+		x, okx := get(o, t, "usr/bin/x")
+		switch {
+		case okl && okx && lx == t.id("X") && x == t.id("YY"):
+			// as it should be
+		case okl && okx && lx == t.id("YY") && x == t.id("YY") && b == bTarfs:
+			report("lazy-content-read-by-name-of-last-entry", c.Note, "usr/bin/lx shows the bytes of the later copy of usr/bin/x")
+		default:
+			report("hardlink-name-lost-its-content", c.Note, fmt.Sprintf("lx=%d(%v) x=%d(%v)", lx, okl, x, okx))
+		}
+	}
+	{
+		c := tcase{Backend: b, Note: "a package that replaces itself ships a file twice", Pkgs: []pkg{
+			{Name: "a", Origin: "a", Replaces: []string{"a"}, Files: append(append([]hdr{}, usr...), f("usr/bin/x", "X", 0o755), f("usr/bin/x", "YY", 0o700))}}}
+		t := newIDs()
+		o, err := run(c, t)
+		if err != nil || o.Err != 0 {
+			fmt.Fprintf(os.Stderr, "harness: probeReadByName (2) could not be run: %v %s\n", err, o.ErrText)
+			harnessFailures++
+			return
+		}
+		x, okx := get(o, t, "usr/bin/x")
+		mode := int64(-1)
+		for _, n := range o.Tree {
+			if n.Path == "usr/bin/x" {
+				mode = n.Mode
+			}
+		}
+		switch {
+		case okx && x == t.id("X") && mode == 0o755:
+			// the first copy stays, with its bytes
+		case okx && x == t.id("YY") && mode == 0o755 && b == bTarfs:
+			report("lazy-content-read-by-name-of-last-entry", c.Note, "usr/bin/x keeps the first copy's mode and shows the second copy's bytes")
+		default:
+			report("kept-copy-lost-its-content", c.Note, fmt.Sprintf("x=%d(%v) mode=%o", x, okx, mode))
+		}
+	}
+}
+
+func hasDupPath(c tcase) bool {
+	for _, p := range c.Pkgs {
+		seen := map[string]bool{}
+		for _, h := range p.Files {
+			if seen[h.Path] {
+				return true
+			}
+			seen[h.Path] = true
+		}
+	}
+	return false
+}
 
 func stage(out string, seed uint64, tier string, b int) error {
 	w := &gal.Writer{Dir: out, Require: "From Apko Require Import Corr.C07.", Type: "case", Check: "check_case", Shard: 60}
@@ -529,8 +920,28 @@ func stage(out string, seed uint64, tier string, b int) error {
 	for _, c := range linkCorpus(b) {
 		addCase(w, c)
 	}
+	for _, c := range hardCorpus(b) {
+		addCase(w, c)
+	}
+	for _, c := range dupCorpus(b) {
+		addCase(w, c)
+	}
+	for _, c := range cellCorpus(b) {
+		addCase(w, c)
+	}
+	probeReadByName(b)
+	// every cell of the table must have been run by the hand-picked cases alone
+	var missing []string
+	for _, cell := range allCells() {
+		if cellCount[cell] == 0 {
+			missing = append(missing, cell)
+		}
+	}
+	if len(missing) > 0 {
+		return fmt.Errorf("clash table: cells never exercised by the corpus: %v", missing)
+	}
 	r := gal.NewRand(seed*3 + uint64(b))
-	n := 160
+	n := 130
 	if tier == "thorough" {
 		n = 2500
 	}
@@ -543,5 +954,7 @@ func stage(out string, seed uint64, tier string, b int) error {
 	if harnessFailures > 0 {
 		return fmt.Errorf("%d case(s) could not be run", harnessFailures)
 	}
+	st, _ := json.Marshal(map[string]any{"clash_cells_" + strings.ToLower(backendNames[b]): cellCount, "cases_with_a_path_twice_in_one_package_" + strings.ToLower(backendNames[b]): dupCases})
+	fmt.Printf("STAT %s\n", st)
 	return w.Flush()
 }
